@@ -3,8 +3,10 @@
 import sys, os, json, shutil
 prop, k, caught = sys.argv[1], sys.argv[2], sys.argv[3]
 status = sys.argv[4] if len(sys.argv) > 4 else 'caught'
-src = '/tmp/seed/%s/%s' % (prop, k)
-dst = os.path.join(os.path.dirname(os.path.dirname(os.path.abspath(__file__))), 'seeded', '%s-%s' % (prop, k))
+root = os.environ.get('SEEDROOT', '/tmp/seed')
+tag = os.environ.get('SEEDTAG', '')
+src = '%s/%s/%s' % (root, prop, k)
+dst = os.path.join(os.path.dirname(os.path.dirname(os.path.abspath(__file__))), 'seeded', '%s-%s%s' % (prop, tag, k))
 os.makedirs(dst, exist_ok=True)
 for f in ('patch.diff', 'demo.py'):
     shutil.copy(os.path.join(src, f), os.path.join(dst, f))
